@@ -66,8 +66,13 @@ type Case struct {
 	Forced   bool     `json:"forced,omitempty"`   // follow Schedule, then drain in fixed order
 	Seed     uint64   `json:"seed"`
 	MaxSteps int      `json:"max_steps,omitempty"`
-	Note     string   `json:"note,omitempty"`
-	Obs      *Obs     `json:"obs,omitempty"`
+	// mode A: subscribers whose client goes away once everything is quiet; the writes with
+	// W = -2 are made afterwards
+	Cancel []int `json:"cancel,omitempty"`
+	// mode S: the walk goroutine parks inside every queue insertion
+	WalkLock bool   `json:"walk_lock,omitempty"`
+	Note     string `json:"note,omitempty"`
+	Obs      *Obs   `json:"obs,omitempty"`
 }
 
 // Obs is what one run showed.
